@@ -77,3 +77,10 @@ package cmd
 //@     invariant [slot_range] j >= 0 && totaltrees >= 1 && len(outtrees) == numtrees
 //@     step [one_draw_per_slot_among_all_seen] ghost(rand_count) == atHead(ghost(rand_count)) + 1 && ghost(rand_range) == totaltrees
 //@     step [slot_replaced_iff_draw_is_zero] (ghost(rand_last) == 0 ? outtrees[j] == t.Tree : outtrees[j] == atHead(outtrees[j])) && (forall k int :: 0 <= k && k < numtrees && k != j ==> outtrees[k] == atHead(outtrees[k]))
+
+// ---------------------------------------------------------------------------
+// compare trees (property C11): every result channel that is drained is non-nil
+// ---------------------------------------------------------------------------
+
+//@ func cmd.compareTreesCmd.RunE
+//@   flag noframe
